@@ -94,4 +94,5 @@ def main():
     json.dump(groups, open(dst, "w"))
 
 
-main()
+if __name__ == "__main__":
+    main()
